@@ -4,17 +4,26 @@
 //!
 //!   GLOB2RE x<pat>                  -> x<regex source>                 (hook: readers::verif::glob_to_regex)
 //!   GLOBPREFIX x<pat>               -> NONE | SOME x<prefix>           (hook: readers::verif::extract_prefix)
-//!   GLOBMATCH x<pat> x<key>...      -> OK x<key>... | ERR <kind>       (REAL expand_cloud_glob on FakeObjectIO)
+//!   GLOBMATCH x<pat> x<key>...      -> <L> OK x<key>... | <L> ERR <kind> | ERR <kind>
+//!                                      (REAL expand_cloud_glob on FakeObjectIO; <L> = what the store wrapper saw
+//!                                      as the argument of `list_objects`: PNONE | Px<prefix>, one token per call)
 //!   GLOBREQ x<pat> x<key>...        -> same through expand_cloud_glob_required
-//!   GLOBALL x<pat> x<alphabet> <n>  -> OK <count> x<key>...            (store = ALL keys of length <= n)
+//!   GLOBALL x<pat> x<alphabet> <n>  -> <L> OK <count> x<key>...        (store = ALL keys of length <= n)
+//!   REFMATCH x<pat> x<key>...       -> M:<bit per key>                 (harness `ref_match` vs the model's `globMatch`)
+//!   REFALL x<pat> x<alphabet> <n>   -> N <count> x<key>...             (the same two references over ALL keys)
 //!   CLOUDJSONL x<key> r...          -> W:<codec> R:OK r... | W:<codec> R:ERR
 //!                                      (write_cloud_jsonl_vec, sniff the stored bytes, read_cloud_jsonl_vec)
 //!   GLOBREAD x<pat> x<key>=r,r ...  -> OK r... | ERR <kind>            (write each object, read_cloud_jsonl_glob)
 //!
 //! Oracles (independent of the Lean model): expansion == keys accepted by a reference matcher written here
 //! from the documented syntax (`*` within a segment, `?` one character, `**` anything, other characters
-//! themselves), sorted; every accepted key starts with the listing prefix; read-back == written; the stored
-//! object carries the codec that the key's extension names; glob read == concatenation in sorted key order.
+//! themselves), sorted; every accepted key starts with the prefix the store was ACTUALLY asked to list by
+//! (recorded by the store wrapper) and with the helper's return value; exactly one listing per expansion;
+//! read-back == written (four record types); the stored object carries the codec that the key's extension
+//! names (table of documented extensions, ASCII-case-insensitive suffix test — not the writer's chain);
+//! glob read == concatenation in sorted key order.
+//! `**` is "any text" and the `/` around it are ordinary characters (`a/**/b` accepts `a//b`, not `a/b`) — the
+//! reading of the property statement; see `Props/C19.lean` ("how `**` is read").
 
 use crate::ctx::{Ctx, guarded, hex};
 use ironbeam::io::cloud::readers::{
@@ -23,7 +32,8 @@ use ironbeam::io::cloud::readers::{
 };
 use ironbeam::io::cloud::{CloudResult, FakeObjectIO, ObjectIO, ObjectMetadata};
 use serde::{Deserialize, Serialize};
-use std::collections::BTreeSet;
+use std::collections::{BTreeMap, BTreeSet};
+use std::sync::{Arc, Mutex};
 
 const B: &str = "bkt";
 
@@ -76,8 +86,15 @@ fn ref_match(pat: &str, key: &str) -> bool {
 
 /// The fake bucket behind a listing that comes back in a scrambled (reverse, then rotated) order and,
 /// like a real object store, only honours the prefix: the sort in `expand_cloud_glob` must do the ordering.
+/// Every `list_objects` call is recorded with the prefix it was given (the property's "listing by prefix never
+/// hides a match" is checked on the prefix the store actually received, not on a helper's return value).
 #[derive(Clone)]
-struct Scrambled(FakeObjectIO);
+struct Scrambled(FakeObjectIO, Arc<Mutex<Vec<Option<String>>>>);
+impl Scrambled {
+    fn take_listing(&self) -> Vec<Option<String>> {
+        std::mem::take(&mut *self.1.lock().unwrap_or_else(|e| e.into_inner()))
+    }
+}
 impl ObjectIO for Scrambled {
     fn put_object(&self, b: &str, k: &str, d: &[u8]) -> CloudResult<()> {
         self.0.put_object(b, k, d)
@@ -89,6 +106,7 @@ impl ObjectIO for Scrambled {
         self.0.delete_object(b, k)
     }
     fn list_objects(&self, b: &str, prefix: Option<&str>) -> CloudResult<Vec<ObjectMetadata>> {
+        self.1.lock().unwrap_or_else(|e| e.into_inner()).push(prefix.map(str::to_string));
         let mut v = self.0.list_objects(b, prefix)?;
         v.reverse();
         if v.len() > 2 {
@@ -113,7 +131,7 @@ fn empty_bucket() -> Scrambled {
     // make the bucket exist even when it holds no key
     st.put_object(B, "\u{1}tmp", b"").unwrap();
     st.delete_object(B, "\u{1}tmp").unwrap();
-    Scrambled(st)
+    Scrambled(st, Arc::new(Mutex::new(vec![])))
 }
 
 fn mk_store(keys: &[String]) -> Scrambled {
@@ -124,7 +142,23 @@ fn mk_store(keys: &[String]) -> Scrambled {
     st
 }
 
-fn keys_answer(r: &Result<Result<Vec<String>, String>, String>, with_count: bool) -> String {
+fn listing_tok(listing: &[Option<String>]) -> String {
+    listing
+        .iter()
+        .map(|p| match p {
+            None => "PNONE".to_string(),
+            Some(p) => format!("P{}", xs(p)),
+        })
+        .collect::<Vec<_>>()
+        .join("+")
+}
+
+fn keys_answer(listing: &[Option<String>], r: &Result<Result<Vec<String>, String>, String>, with_count: bool) -> String {
+    let body = keys_answer_body(r, with_count);
+    if listing.is_empty() { body } else { format!("{} {body}", listing_tok(listing)) }
+}
+
+fn keys_answer_body(r: &Result<Result<Vec<String>, String>, String>, with_count: bool) -> String {
     match r {
         Ok(Ok(v)) => {
             let mut s = String::from("OK");
@@ -143,8 +177,25 @@ fn keys_answer(r: &Result<Result<Vec<String>, String>, String>, with_count: bool
 }
 
 /// the property's statement for one expansion
-fn glob_oracle(cx: &mut Ctx, case: usize, pat: &str, universe: &BTreeSet<String>, real: &Result<Result<Vec<String>, String>, String>, required: bool) -> bool {
+fn glob_oracle(cx: &mut Ctx, case: usize, pat: &str, universe: &BTreeSet<String>, listing: &[Option<String>], real: &Result<Result<Vec<String>, String>, String>, required: bool) -> bool {
     let expected: Vec<String> = universe.iter().filter(|k| ref_match(pat, k)).cloned().collect();
+    // the prefix the store was actually asked to list by: it must not hide a key the pattern accepts
+    // (checked against the reference matcher, so it does not depend on what came back), and the bucket must
+    // be listed exactly once per expansion
+    if !matches!(real, Err(_)) && listing.len() != 1 {
+        cx.oracle_fail(case, "glob-listing-call-count", format!("pattern {pat:?}: list_objects called {} times", listing.len()));
+    }
+    for p in listing.iter().flatten() {
+        if let Some(k) = expected.iter().find(|k| !k.starts_with(p.as_str())) {
+            cx.oracle_fail(case, "glob-listing-prefix-hides-match", format!("pattern {pat:?}: list_objects was called with prefix {p:?}, which excludes the matching key {k:?}"));
+        }
+    }
+    match listing.first() {
+        Some(None) => cx.count("listing:prefix=none"),
+        Some(Some(p)) if p == pat => cx.count("listing:prefix=whole-pattern"),
+        Some(Some(_)) => cx.count("listing:prefix=proper"),
+        None => cx.count("listing:not-called"),
+    }
     // listing by prefix never hides a match
     let prefix = verif::extract_prefix(pat);
     if let Some(p) = &prefix {
@@ -183,19 +234,24 @@ fn glob_oracle(cx: &mut Ctx, case: usize, pat: &str, universe: &BTreeSet<String>
 
 fn one_match(cx: &mut Ctx, pat: &str, keys: &[String], required: bool) {
     let st = mk_store(keys);
+    st.take_listing();
     let real = guarded(|| {
         let r = if required { expand_cloud_glob_required(&st, B, pat) } else { expand_cloud_glob(&st, B, pat) };
         r.map_err(|e| format!("{:?}", e.kind))
     });
-    let mut req = format!("{} {}", if required { "GLOBREQ" } else { "GLOBMATCH" }, xs(pat));
+    let listing = st.take_listing();
+    let mut args = xs(pat);
     for k in keys {
-        req.push(' ');
-        req.push_str(&xs(k));
+        args.push(' ');
+        args.push_str(&xs(k));
     }
     let universe: BTreeSet<String> = keys.iter().cloned().collect();
-    let i = cx.case(req, keys_answer(&real, false), false);
-    let nt = glob_oracle(cx, i, pat, &universe, &real, required);
+    let i = cx.case(format!("{} {args}", if required { "GLOBREQ" } else { "GLOBMATCH" }), keys_answer(&listing, &real, false), false);
+    let nt = glob_oracle(cx, i, pat, &universe, &listing, &real, required);
     cx.nontrivial[i] = nt;
+    // the two statements of the documented syntax (this file's `ref_match`, the model's `globMatch`) on the same pairs
+    let bits: String = keys.iter().map(|k| if ref_match(pat, k) { '1' } else { '0' }).collect();
+    cx.case(format!("REFMATCH {args}"), format!("M:{bits}"), nt);
     cx.count(if nt { "match:some-not-all" } else { "match:none-or-all" });
     cx.count(&format!("match:keys={}", keys.len().min(8)));
 }
@@ -246,7 +302,35 @@ struct Rec {
     o: Option<i64>,
 }
 
-fn rec_tok(r: &Rec) -> String {
+/// a second record shape: an enum (unit / newtype / tuple / struct variants = JSON string, single-key objects
+/// holding a number, an array, an object) — a serialised record need not start with `{`
+#[derive(Serialize, Deserialize, Clone, Debug, PartialEq)]
+enum Rec2 {
+    Unit,
+    N(i64),
+    T(String, Vec<Option<bool>>),
+    S { m: BTreeMap<String, u64>, u: () },
+}
+
+/// what a record type must offer to be written, read back and compared
+trait Record: Serialize + serde::de::DeserializeOwned + Clone + PartialEq + std::fmt::Debug {
+    const NAME: &'static str;
+}
+impl Record for Rec {
+    const NAME: &'static str = "struct";
+}
+impl Record for Rec2 {
+    const NAME: &'static str = "enum";
+}
+/// top-level JSON scalars / arrays as records: `"text"`, `null`, `[1,2]`
+impl Record for String {
+    const NAME: &'static str = "string";
+}
+impl Record for Option<Vec<i64>> {
+    const NAME: &'static str = "option-vec";
+}
+
+fn rec_tok<T: Serialize>(r: &T) -> String {
     format!("r{}", hex(serde_json::to_string(r).unwrap().as_bytes()))
 }
 
@@ -264,23 +348,52 @@ fn sniff(bytes: &[u8]) -> &'static str {
     }
 }
 
-/// the documented rule: the key's extension (case-insensitive) names the codec
+/// the documented extensions (compression.rs module table, readers.rs "e.g. .gz, .zst, .bz2, .xz") and the
+/// format each one names
+const CODEC_EXTS: &[(&str, &str)] = &[(".gz", "gzip"), (".gzip", "gzip"), (".zst", "zstd"), (".zstd", "zstd"), (".bz2", "bzip2"), (".bzip2", "bzip2"), (".xz", "xz")];
+
+/// the documented rule, stated without the writer's chain: the key's last characters, compared letter by letter
+/// ignoring ASCII case, are one of the documented extensions (no documented extension is a suffix of another,
+/// so at most one row applies; no non-ASCII character lower-cases to one of their letters)
 fn doc_codec(key: &str) -> &'static str {
-    let k = key.to_lowercase();
-    if k.ends_with(".gz") || k.ends_with(".gzip") {
-        "gzip"
-    } else if k.ends_with(".zst") || k.ends_with(".zstd") {
-        "zstd"
-    } else if k.ends_with(".bz2") || k.ends_with(".bzip2") {
-        "bzip2"
-    } else if k.ends_with(".xz") {
-        "xz"
-    } else {
-        "plain"
+    let kc: Vec<char> = key.chars().collect();
+    let mut found = "plain";
+    for (ext, codec) in CODEC_EXTS {
+        let ec: Vec<char> = ext.chars().collect();
+        if kc.len() >= ec.len() && kc[kc.len() - ec.len()..].iter().zip(&ec).all(|(a, b)| a.eq_ignore_ascii_case(b)) {
+            found = codec;
+        }
     }
+    found
 }
 
-fn one_jsonl(cx: &mut Ctx, key: &str, recs: &[Rec]) {
+/// every documented extension in lower, UPPER, Capitalised, aLtErNaTiNg and lowe-R (last letter only) case
+fn ext_case_variants() -> Vec<String> {
+    let mut out = vec![];
+    for (ext, _) in CODEC_EXTS {
+        let body = &ext[1..];
+        let lower = body.to_string();
+        let upper = body.to_ascii_uppercase();
+        let mut cap = String::new();
+        let mut alt = String::new();
+        let mut last = String::new();
+        let n = body.chars().count();
+        for (i, c) in body.chars().enumerate() {
+            cap.push(if i == 0 { c.to_ascii_uppercase() } else { c });
+            alt.push(if i % 2 == 1 { c.to_ascii_uppercase() } else { c });
+            last.push(if i + 1 == n { c.to_ascii_uppercase() } else { c });
+        }
+        for v in [lower, upper, cap, alt, last] {
+            let e = format!(".{v}");
+            if !out.contains(&e) {
+                out.push(e);
+            }
+        }
+    }
+    out
+}
+
+fn one_jsonl<T: Record>(cx: &mut Ctx, key: &str, recs: &[T]) {
     let st = FakeObjectIO::new();
     let w = guarded(|| write_cloud_jsonl_vec(&st, B, key, recs).map_err(|e| format!("{:?}", e.kind)));
     let stored = st.get_object(B, key).ok();
@@ -289,7 +402,7 @@ fn one_jsonl(cx: &mut Ctx, key: &str, recs: &[Rec]) {
         (Ok(Err(k)), _) => format!("ERR-{k}"),
         _ => "PANIC".into(),
     };
-    let r = guarded(|| read_cloud_jsonl_vec::<Rec, _>(&st, B, key).map_err(|e| format!("{:?}", e.kind)));
+    let r = guarded(|| read_cloud_jsonl_vec::<T, _>(&st, B, key).map_err(|e| format!("{:?}", e.kind)));
     let mut ans = format!("W:{wc} ");
     match &r {
         Ok(Ok(v)) => {
@@ -310,6 +423,10 @@ fn one_jsonl(cx: &mut Ctx, key: &str, recs: &[Rec]) {
     let i = cx.case(req, ans, !recs.is_empty() && doc_codec(key) != "plain");
     cx.count(&format!("jsonl:codec={wc}"));
     cx.count(&format!("jsonl:recs={}", recs.len().min(4)));
+    cx.count(&format!("jsonl:record-type={}", T::NAME));
+    if doc_codec(key) != "plain" && key.chars().rev().take_while(|c| *c != '.').any(|c| c.is_ascii_uppercase()) {
+        cx.count(&format!("jsonl:upper-or-mixed-case-ext={}", doc_codec(key)));
+    }
     if wc != doc_codec(key) {
         cx.oracle_fail(i, "cloud-jsonl-writer-ignores-extension", format!("key {key:?}: stored object is {wc}, the extension names {}", doc_codec(key)));
     }
@@ -348,9 +465,15 @@ fn one_read(cx: &mut Ctx, pat: &str, objs: &[(String, Vec<Rec>)]) {
         Ok(Err(k)) => format!("ERR {k}"),
         Err(_) => "PANIC".into(),
     };
+    let listing = st.take_listing();
     let expected: Vec<Rec> = last.iter().filter(|(k, _)| ref_match(pat, k)).flat_map(|(_, v)| v.clone()).collect();
     let nmatch = last.keys().filter(|k| ref_match(pat, k)).count();
     let i = cx.case(req, ans, nmatch >= 2);
+    for p in listing.iter().flatten() {
+        if let Some(k) = last.keys().find(|k| ref_match(pat, k) && !k.starts_with(p.as_str())) {
+            cx.oracle_fail(i, "glob-listing-prefix-hides-match", format!("pattern {pat:?}: list_objects was called with prefix {p:?}, which excludes the matching key {k:?}"));
+        }
+    }
     cx.count(&format!("read:matching-objects={}", nmatch.min(4)));
     match &r {
         Ok(Ok(v)) if *v == expected => {}
@@ -481,6 +604,21 @@ fn gen_rec(cx: &mut Ctx) -> Rec {
     }
 }
 
+fn gen_rec2(cx: &mut Ctx) -> Rec2 {
+    match cx.rng.below(4) {
+        0 => Rec2::Unit,
+        1 => Rec2::N(cx.rng.range(-1000, 1000)),
+        2 => {
+            let n = cx.rng.below(3);
+            Rec2::T(cx.rng.pick(STR_POOL).to_string(), (0..n).map(|_| if cx.rng.chance(1, 3) { None } else { Some(cx.rng.chance(1, 2)) }).collect())
+        }
+        _ => {
+            let n = cx.rng.below(3);
+            Rec2::S { m: (0..n).map(|_| (cx.rng.pick(STR_POOL).to_string(), cx.rng.next_u64())).collect(), u: () }
+        }
+    }
+}
+
 fn gen_recs(cx: &mut Ctx) -> Vec<Rec> {
     let n = match cx.rng.below(6) {
         0 => 0,
@@ -496,10 +634,28 @@ fn gen_recs(cx: &mut Ctx) -> Vec<Rec> {
 const STEMS: &[&str] = &[
     "data", "dir/data", "dir/", "", "dir/.", "a.b", "dir/..", "x.gz/file", "x.gz/", "x.gz/.", "d.d/e", "K", "İ", "dir/sub/.hidden", "日本/データ", "a b", "\n", "out.jsonl", "..", ".",
 ];
-const EXTS: &[&str] = &[
-    "", ".gz", ".GZ", ".Gz", ".gzip", ".GZIP", ".zst", ".zstd", ".ZsT", ".bz2", ".BZ2", ".bzip2", ".xz", ".XZ", ".jsonl", ".jsonl.gz", ".tar.gz", ".gz.bak", ".gz.", "gz", ".g z", ".gz ",
-    ".zstd.gz", ".xz/", ".gz/x", "..gz", ".gzİp", ".\u{212a}z", ".zs",
+/// tails that are not (only) a documented extension: none, double extensions, near misses, non-ASCII look-alikes
+const EXTS_OTHER: &[&str] = &[
+    "", ".jsonl", ".jsonl.gz", ".tar.gz", ".jsonl.BZIP2", ".tar.Zstd", ".gz.bak", ".gz.", "gz", ".g z", ".gz ", ".zstd.gz", ".xz/", ".gz/x", "..gz", ".gzİp", ".\u{212a}z", ".zs",
+    ".bzip", ".bz", ".zip2", "bzip2", ".BZIP2x", ".ZSTD.", ".Xz.txt",
 ];
+
+/// every documented extension in five letter cases, then the other tails
+fn all_exts() -> Vec<String> {
+    let mut v = ext_case_variants();
+    // an extension the running registry knows beyond the documented ones is exercised too (lower and upper case)
+    for (_, exts, _) in ironbeam::io::compression::verif_codec_table() {
+        for e in exts {
+            for x in [e.clone(), e.to_ascii_uppercase()] {
+                if !v.contains(&x) {
+                    v.push(x);
+                }
+            }
+        }
+    }
+    v.extend(EXTS_OTHER.iter().map(|e| e.to_string()));
+    v
+}
 
 pub fn tables(out: &mut String) {
     // the escape set of the running `glob_to_regex`, probed on every ASCII character
@@ -529,6 +685,32 @@ pub fn tables(out: &mut String) {
     out.push_str("/-- C19: what `glob_to_regex` puts before the translated pattern -/\n");
     out.push_str(&format!("def regexHead : List Char := [{}]\n\n", list(&head.chars().map(|c| c as u32).collect::<Vec<_>>())));
     let _ = plain;
+    // UTF-8 encodings by the running std (`char::encode_utf8`): every encoded-length boundary +-1, the surrogate
+    // gap, and a spread over the whole range — the model's `utf8` (used to state "String order = byte order")
+    // is re-checked against them on every run
+    let mut scalars: Vec<u32> = vec![];
+    for b in [0u32, 0x7f, 0x80, 0x7ff, 0x800, 0xd7ff, 0xe000, 0xffff, 0x10000, 0x10ffff] {
+        for d in [-1i64, 0, 1] {
+            let n = b as i64 + d;
+            if n >= 0 {
+                scalars.push(n as u32);
+            }
+        }
+    }
+    scalars.extend((0u32..0x110000).step_by(4099));
+    scalars.sort_unstable();
+    scalars.dedup();
+    let rows: Vec<String> = scalars
+        .into_iter()
+        .filter_map(char::from_u32)
+        .map(|c| {
+            let mut buf = [0u8; 4];
+            let bytes = c.encode_utf8(&mut buf).as_bytes().iter().map(|b| b.to_string()).collect::<Vec<_>>().join(", ");
+            format!("({}, [{bytes}])", c as u32)
+        })
+        .collect();
+    out.push_str("/-- C19: (scalar value, bytes of `char::encode_utf8`) computed by the running std -/\n");
+    out.push_str(&format!("def utf8Samples : List (Nat × List Nat) := [{}]\n\n", rows.join(", ")));
 }
 
 pub fn run(cx: &mut Ctx) {
@@ -536,7 +718,9 @@ pub fn run(cx: &mut Ctx) {
     let r1 = Rec { id: 1, s: "x".into(), tags: vec![], o: None };
     one_jsonl(cx, "dir/.gz", &[r1.clone()]); // DESIGN §8 #16: written plain, read through gzip
     one_jsonl(cx, ".zst", &[r1.clone(), r1.clone()]);
-    one_jsonl(cx, "dir/.gz", &[]);
+    one_jsonl::<Rec>(cx, "dir/.gz", &[]);
+    one_jsonl(cx, "part-0.BZIP2", &[r1.clone()]); // a second alternative of a branch, upper case: a chain that tests the raw key there writes plain
+    one_jsonl(cx, "part-0.Zstd", &[r1.clone()]);
     one_jsonl(cx, "x.gz/", &[r1.clone()]);
     one_jsonl(cx, "data.jsonl.GZ", &[r1.clone()]);
     one_match(cx, "a?c", &["a\nc".into(), "abc".into(), "a/c".into()], false); // `.` does not match \n without (?s)
@@ -545,6 +729,18 @@ pub fn run(cx: &mut Ctx) {
     one_match(cx, "logs/2024-01-*/data.jsonl", &["logs/2024-01-01/data.jsonl".into(), "logs/2024-01-02/x/data.jsonl".into(), "logs/2024-02-01/data.jsonl".into()], false);
     one_match(cx, "a+(b)[c]{d}^$|\\.#-~&", &["a+(b)[c]{d}^$|\\.#-~&".into(), "aa(b)[c]{d}^$|\\.#-~&".into()], false);
     one_match(cx, "*", &[], true);
+    // key order: Rust `String` order is UTF-8 byte order, the model sorts by scalar value — the two agree, also
+    // across every encoded-length boundary (1/2/3/4 bytes) and around the surrogate gap (in UTF-16 order
+    // U+E000 would sort AFTER U+10000)
+    let bounds = ['\u{0}', '\u{7f}', '\u{80}', '\u{7ff}', '\u{800}', '\u{d7ff}', '\u{e000}', '\u{ffff}', '\u{10000}', '\u{10ffff}'];
+    let mut bkeys: Vec<String> = vec![];
+    for c in bounds.iter().rev() {
+        bkeys.push(format!("k{c}"));
+        bkeys.push(format!("k{c}a"));
+        bkeys.push(format!("{c}"));
+    }
+    one_match(cx, "**", &bkeys, false);
+    one_match(cx, "k?*", &bkeys, false);
     // long patterns (beyond the 1024-byte key limit of real stores; the regex crate's compiled-size limit,
     // not modelled, only rejects patterns with several thousand wildcards)
     one_match(cx, &"?".repeat(300), &["x".repeat(300), "x".repeat(299), "/".repeat(300), "x".repeat(301)], false);
@@ -555,28 +751,46 @@ pub fn run(cx: &mut Ctx) {
     }
 
     // ---- (2) small-scope exhaustive ----------------------------------------------------------------
-    let ptoks: &[&str] = &["*", "**", "?", "/", ".", "a"];
-    let pn = cx.budget(4, 5);
-    let kalpha: &[&str] = &["/", ".", "a", "b", "\n", "+"];
+    // block A: the wildcards, the separator, the dot; keys with a second letter, a line feed and a `+`
+    // block B: the same plus three regex metacharacters as PATTERN characters (`+` a quantifier, `(` a group
+    //          opener that makes the regex invalid when unescaped, `$` an anchor), keys over the same characters
+    let blocks: [(&[&str], usize, &[&str]); 2] = [
+        (&["*", "**", "?", "/", ".", "a"], cx.budget(4, 5), &["/", ".", "a", "b", "\n", "+"]),
+        (&["*", "**", "?", "/", ".", "a", "+", "(", "$"], cx.budget(3, 4), &["/", ".", "a", "+", "(", "$"]),
+    ];
     let kn = 4;
-    let pats = all_strings(ptoks, pn);
-    let pats: Vec<String> = pats.into_iter().collect::<BTreeSet<_>>().into_iter().collect();
-    let keys = all_strings(kalpha, kn);
-    let universe: BTreeSet<String> = keys.iter().cloned().collect();
-    let st = mk_store(&keys);
-    let alpha_s: String = kalpha.concat();
-    for p in &pats {
-        let real = guarded(|| expand_cloud_glob(&st, B, p).map_err(|e| format!("{:?}", e.kind)));
-        let i = cx.case(format!("GLOBALL {} {} {kn}", xs(p), xs(&alpha_s)), keys_answer(&real, true), false);
-        let nt = glob_oracle(cx, i, p, &universe, &real, false);
-        cx.nontrivial[i] = nt;
-        cx.count(if nt { "all:some-not-all" } else { "all:none-or-all" });
-        one_re(cx, p);
+    let mut seen_pats: BTreeSet<String> = BTreeSet::new();
+    for (ptoks, pn, kalpha) in blocks {
+        let pats: Vec<String> = all_strings(ptoks, pn).into_iter().collect::<BTreeSet<_>>().into_iter().collect();
+        let keys = all_strings(kalpha, kn);
+        let universe: BTreeSet<String> = keys.iter().cloned().collect();
+        let st = mk_store(&keys);
+        let alpha_s: String = kalpha.concat();
+        for p in &pats {
+            st.take_listing();
+            let real = guarded(|| expand_cloud_glob(&st, B, p).map_err(|e| format!("{:?}", e.kind)));
+            let listing = st.take_listing();
+            let i = cx.case(format!("GLOBALL {} {} {kn}", xs(p), xs(&alpha_s)), keys_answer(&listing, &real, true), false);
+            let nt = glob_oracle(cx, i, p, &universe, &listing, &real, false);
+            cx.nontrivial[i] = nt;
+            cx.count(if nt { "all:some-not-all" } else { "all:none-or-all" });
+            // the two references (harness `ref_match`, model `globMatch`) over the same universe
+            let exp: Vec<&String> = universe.iter().filter(|k| ref_match(p, k)).collect();
+            let mut ans = format!("N {}", exp.len());
+            for k in exp {
+                ans.push(' ');
+                ans.push_str(&xs(k));
+            }
+            cx.case(format!("REFALL {} {} {kn}", xs(p), xs(&alpha_s)), ans, nt);
+            if seen_pats.insert(p.clone()) {
+                one_re(cx, p);
+            }
+        }
+        cx.exhaustive_blocks.push(format!(
+            "glob: all {} distinct patterns of <= {pn} tokens over {{{}}} x all {} keys of length <= {kn} over {{{}}} (one store holding every key; {} pattern-key pairs; real expansion, recorded listing prefix, harness reference and model reference compared on each)",
+            pats.len(), ptoks.join(","), keys.len(), kalpha.iter().map(|c| c.escape_default().to_string()).collect::<Vec<_>>().join(","), pats.len() * keys.len()
+        ));
     }
-    cx.exhaustive_blocks.push(format!(
-        "glob: all {} distinct patterns of <= {pn} tokens over {{*,**,?,/,.,a}} x all {} keys of length <= {kn} over {{/,.,a,b,\\n,+}} (one store holding every key; {} pattern-key pairs)",
-        pats.len(), keys.len(), pats.len() * keys.len()
-    ));
     // every single ASCII character as a pattern against every single ASCII character as a key
     let ascii: Vec<String> = (0u32..128).map(|n| char::from_u32(n).unwrap().to_string()).collect();
     for p in &ascii {
@@ -588,17 +802,23 @@ pub fn run(cx: &mut Ctx) {
     // codec choice: stems x extensions x {0,1,3 records}
     let r2 = Rec { id: -7, s: "line1\nline2".into(), tags: vec!["BZh91AY&SY".into(), "".into()], o: Some(3) };
     let r3 = Rec { id: i64::MAX, s: "日本語".into(), tags: vec!["\r".into()], o: None };
+    let exts = all_exts();
+    let e1 = [Rec2::Unit, Rec2::N(i64::MIN), Rec2::T("BZh\n\u{1f}\u{8b}".into(), vec![None, Some(true)]), Rec2::S { m: [("k".to_string(), u64::MAX), ("".to_string(), 0)].into_iter().collect(), u: () }];
     for stem in STEMS {
-        for ext in EXTS {
+        for ext in &exts {
             let key = format!("{stem}{ext}");
             one_jsonl(cx, &key, &[r1.clone(), r2.clone(), r3.clone()]);
-            if cx.tier != crate::ctx::Tier::Quick || ext.len() <= 4 {
-                one_jsonl(cx, &key, &[]);
+            if cx.tier != crate::ctx::Tier::Quick || stem.len() <= 4 {
+                one_jsonl::<Rec>(cx, &key, &[]);
                 one_jsonl(cx, &key, &[r2.clone()]);
+                one_jsonl(cx, &key, &e1);
             }
         }
     }
-    cx.exhaustive_blocks.push(format!("jsonl: {} key stems x {} extensions (case variants, dot-files, directories named like archives) x record vectors of 0/1/3", STEMS.len(), EXTS.len()));
+    cx.exhaustive_blocks.push(format!(
+        "jsonl: {} key stems x {} tails (each of the {} documented extensions in lower/UPPER/Capitalised/aLtErNaTiNg/last-letter case, double extensions, near misses, dot-files, directories named like archives) x record vectors of 0/1/3 (struct) and 4 (enum)",
+        STEMS.len(), exts.len(), CODEC_EXTS.len()
+    ));
 
     // ---- (3) random ---------------------------------------------------------------------------------
     let rounds = cx.budget(4000, 40000);
@@ -660,9 +880,29 @@ pub fn run(cx: &mut Ctx) {
             let m = cx.rng.below(8);
             (0..m).map(|_| *cx.rng.pick(LIT)).collect::<String>()
         };
-        let ext = *cx.rng.pick(EXTS);
-        let recs = gen_recs(cx);
-        one_jsonl(cx, &format!("{stem}{ext}"), &recs);
+        let ext = cx.rng.pick(&exts).clone();
+        let key = format!("{stem}{ext}");
+        match cx.rng.below(6) {
+            0 => {
+                let n = cx.rng.below(6);
+                let recs: Vec<Rec2> = (0..n).map(|_| gen_rec2(cx)).collect();
+                one_jsonl(cx, &key, &recs);
+            }
+            1 => {
+                let n = cx.rng.below(6);
+                let recs: Vec<String> = (0..n).map(|_| cx.rng.pick(STR_POOL).to_string()).collect();
+                one_jsonl(cx, &key, &recs);
+            }
+            2 => {
+                let n = cx.rng.below(6);
+                let recs: Vec<Option<Vec<i64>>> = (0..n).map(|_| if cx.rng.chance(1, 3) { None } else { Some((0..cx.rng.below(4)).map(|_| cx.rng.range(-9, 9)).collect()) }).collect();
+                one_jsonl(cx, &key, &recs);
+            }
+            _ => {
+                let recs = gen_recs(cx);
+                one_jsonl(cx, &key, &recs);
+            }
+        }
     }
     let rounds = cx.budget(600, 6000);
     for _ in 0..rounds {
